@@ -174,7 +174,7 @@ func (u *Url) SetPort(port string) {
 }
 
 func (u *Url) DecodedPort() int {
-	if u.decodedPort == 0 {
+	if u.port == nil {
 		return u.getDefaultPort()
 	} else {
 		return u.decodedPort
